@@ -272,16 +272,16 @@ def run(ck: Check):
         plan += [("MC_ComponentCosts_rand_t.cfg", ck.seed * 100 + i) for i in range(2)]
     else:
         plan += [("MC_ComponentCosts_rand.cfg", ck.seed)]
-    with ThreadPoolExecutor(4) as tp, ProcessPoolExecutor(min(8, os.cpu_count() or 1)) as pool:
-        fut_a = tp.submit(tlc_job, "MC_ComponentCosts_roleA.cfg" if thorough else "MC_ComponentCosts_roleA_q.cfg",
-                          workers=4 if thorough else 2)
-        fut_neg = tp.submit(tlc_job, "MC_ComponentCosts_roleA_neg.cfg", workers=1)
+    with ThreadPoolExecutor(5) as tp, ProcessPoolExecutor(min(8, os.cpu_count() or 1)) as pool:
         futs = []
         for cfg, seed in plan:
             kw = {"coverage": False, "workers": 4}
             if seed is not None:
                 kw.update(seed=seed, workers=1, simulate="num=1", depth=200000)
             futs.append((cfg, seed, tp.submit(tlc_job, cfg, **kw)))
+        fut_a = tp.submit(tlc_job, "MC_ComponentCosts_roleA.cfg" if thorough else "MC_ComponentCosts_roleA_q.cfg",
+                          workers=4 if thorough else 2)
+        fut_neg = tp.submit(tlc_job, "MC_ComponentCosts_roleA_neg.cfg", workers=1)
         for cfg, seed, fut in futs:
             res = fut.result()
             account(res)
